@@ -180,8 +180,13 @@ def _fuzz(ctx):
                 s = rng.choice(["", " ", "\t\n", "*", "|", "||", ",", "-", "+", ">", "^", "~", "()", "[]", "[,]", "vers:", "vers:npm/", "v",
                                 ">=", "1" * 200, "1." * 60, "-1" * 80, "(" * 30, "a - b", "1.x.x", ">1.x", "^0", "1.2.3-1.2.3", "~=,1.0"])
             try:
-                fn(s)
+                _limited(lambda: fn(s))
                 out = "ok"
+            except _TooLong:
+                ctx.disagree(stream, s, "still running after 10 s (interrupted)", "prompt", True,
+                             {"entry_point": label, "text": s, "clause": "%s does not terminate promptly on %d characters" % (label, len(s)),
+                              "python": "see entry point %s on %r" % (label, s)}, spec="terminates promptly")
+                break
             except RecursionError as e_:
                 out = "RecursionError"
                 e = e_
@@ -197,7 +202,29 @@ def _fuzz(ctx):
     ctx.sample({"entry_point": "native:npm", "text": "^1.2.x || >", "outcome": _outcome(lambda: VR.NpmVersionRange.from_native("^1.2.x || >"))})
 
 
+ADVISORY_SCHEMES = ("npm", "pypi", "maven", "gem", "golang", "nuget", "composer", "deb", "rpm")
 PUNCT = list("._-+~:^!,") + list("_-.~+") + ["a", "0", "rc", "\u0663"]
+
+
+class _TooLong(BaseException):
+    pass
+
+
+def _limited(f, seconds=10.0):
+    """run f() in this process; a call that is still running after `seconds` is interrupted (pure-Python loops only: a
+    regular expression that backtracks for ever is the business of the child process of `_hang_screen`).  The timer
+    keeps firing, so that an `except:` inside the library cannot swallow the interruption for good."""
+    import signal
+
+    def onalarm(_sig, _frm):
+        raise _TooLong()
+    old = signal.signal(signal.SIGALRM, onalarm)
+    signal.setitimer(signal.ITIMER_REAL, seconds, 0.5)
+    try:
+        return f()
+    finally:
+        signal.setitimer(signal.ITIMER_REAL, 0)
+        signal.signal(signal.SIGALRM, old)
 
 
 def _near_pairs(ctx):
@@ -221,11 +248,45 @@ def _near_pairs(ctx):
             continue
         rng = ctx.rng("c16-pairs", scheme)
         stream = "near-pairs:" + scheme
+        hung = False
         for i in range(per):
+            if hung:
+                break
             a = S.GEN[gname](rng)
+            r0 = rng.random()
+            keep_valid = 0.45
+            if r0 < 0.3:
+                keep_valid = 0.9      # the point of these two shapes is the comparison of two accepted versions
+            if r0 < 0.15:
+                # a decimal digit that is not ASCII in the place of a digit (the first one, mostly): `\d`, `str.isdigit`
+                # and `int()` know it, `0-9` and `ord() - 48` do not; both versions of the pair carry it
+                runs = [m.start() for m in re.finditer(r"[0-9]", a)]
+                if runs:
+                    j0 = runs[0] if rng.random() < 0.7 else rng.choice(runs)
+                    a = a[:j0] + rng.choice(["\u0663", "\uff11", "\u0e53", "\u0967"]) + a[j0 + 1:]
+            elif r0 < 0.3:
+                # a word in capitals (a pattern made case-insensitive lets it in; what reads the version afterwards may not)
+                ws = [m.span() for m in re.finditer(r"[a-z]{2,12}", a)] or [m.span() for m in re.finditer(r"[a-z]", a)]
+                if ws:
+                    i0, i1 = rng.choice(ws)
+                    a = a[:i0] + a[i0:i1].upper() + a[i1:]
             vs = [a]
             for _ in range(rng.choice([1, 1, 2])):
                 b = vs[-1]
+                if rng.random() < keep_valid:
+                    # a neighbour that is most likely still a version of the scheme (another ending, another qualifier
+                    # word, the qualifier cut off, a number moved): the strict schemes refuse most one-character edits,
+                    # and two versions are compared only when both are accepted
+                    from harness import pools
+                    cands = pools.tail_neighbours(gname, b, rng) + pools.word_neighbours(gname, b, rng) + pools.cut_tails(b)
+                    try:
+                        cands.append(SC.bump_number(b, rng))
+                    except Exception:  # noqa: BLE001
+                        pass
+                    cands = [c for c in cands if c and c != b]
+                    if cands:
+                        vs.append(rng.choice(cands))
+                        continue
                 j = rng.randint(0, len(b))
                 ch = rng.choice(PUNCT)
                 if extra and rng.random() < 0.6:
@@ -239,8 +300,15 @@ def _near_pairs(ctx):
             text = "vers:%s/%s" % (scheme, "|".join(rng.choice([">=", "<=", "<", ">", "!=", ""]) + v for v in vs))
             kw = flags[i % 4]
             try:
-                VersionRange.from_string(text, **kw)
+                _limited(lambda: VersionRange.from_string(text, **kw))
                 out = "ok"
+            except _TooLong:
+                ctx.disagree(stream, text, "still running after 10 s (interrupted)", "prompt", True,
+                             {"entry_point": "VersionRange.from_string", "flags": kw, "text": text,
+                              "clause": "from_string does not terminate promptly on %d characters" % len(text),
+                              "python": "from univers.version_range import VersionRange as R; R.from_string(%r, **%r)" % (text, kw)},
+                             spec="terminates promptly")
+                break
             except RecursionError as e_:
                 out, e = "RecursionError", e_
             except Exception as e_:  # noqa: BLE001
@@ -253,6 +321,34 @@ def _near_pairs(ctx):
                              {"entry_point": "VersionRange.from_string", "flags": kw, "text": text, "clause": "%s escapes" % out,
                               "python": "from univers.version_range import VersionRange as R; R.from_string(%r, **%r)" % (text, kw)},
                              region=_region("from_string", text, out, e), spec="declared error or success")
+            if hung:
+                break       # one input that does not terminate is enough for this scheme
+            # the same versions through the advisory notations, which do not refuse non-ASCII text before they build
+            # (and sort) the constraints
+            if scheme in ADVISORY_SCHEMES and (not text.isascii() or i % 4 == 0):
+                adv = ", ".join(rng.choice([">=", "<=", "<", ">", "="]) + rng.choice(["", " "]) + v for v in vs)
+                for label, fn in (("github:" + scheme, lambda t: VR.build_range_from_github_advisory_constraint(scheme, t)),
+                                  ("snyk:" + scheme, lambda t: VR.build_range_from_snyk_advisory_string(scheme, t))):
+                    try:
+                        _limited(lambda: fn(adv))
+                        out = "ok"
+                    except _TooLong:
+                        ctx.disagree(stream, label + " " + adv, "still running after 10 s (interrupted)", "prompt", True,
+                                     {"entry_point": label, "text": adv, "clause": "%s does not terminate promptly on %d characters" % (label, len(adv)),
+                                      "python": "see entry point %s on %r" % (label, adv)}, spec="terminates promptly")
+                        hung = True
+                        break
+                    except RecursionError as e_:
+                        out, e = "RecursionError", e_
+                    except Exception as e_:  # noqa: BLE001
+                        e = e_
+                        out = type(e).__name__
+                    ctx.count(stream, key=(label, adv), nontrivial=out != "ok", error=None if out == "ok" else out, branch=label.split(":")[0])
+                    if out != "ok" and not declared_for("native", e):
+                        ctx.disagree(stream, label + " " + adv, out, "declared error or success", True,
+                                     {"entry_point": label, "text": adv, "clause": "%s escapes" % out,
+                                      "python": "see entry point %s on %r" % (label, adv)},
+                                     region=_region(label, adv, out, e), spec="declared error or success")
 
 
 def _outcome(f):
